@@ -372,7 +372,7 @@ func (s *Store[H]) DeleteRange(ctx context.Context, from, to uint64) error {
 			actualTo, _, deleteErr := s.deleteRangeRaw(ctx, from, to)
 			if deleteErr != nil {
 				// keep the progress as a regular tail-side deletion would
-				if err := s.setTail(ctx, s.ds, actualTo); err != nil {
+				if err := s.movePointer(ctx, func() error { return s.setTail(ctx, s.ds, actualTo) }); err != nil {
 					deleteErr = errors.Join(
 						deleteErr,
 						fmt.Errorf("header/store: setting tail to %d: %w", actualTo, err),
@@ -456,7 +456,7 @@ func (s *Store[H]) DeleteRange(ctx context.Context, from, to uint64) error {
 	// This ensures store consistency and allows retries to continue from where we left off.
 	if updateTail {
 		// For tail-side deletion, update tail to actual progress
-		if err := s.setTail(ctx, s.ds, actualTo); err != nil {
+		if err := s.movePointer(ctx, func() error { return s.setTail(ctx, s.ds, actualTo) }); err != nil {
 			return errors.Join(
 				deleteErr,
 				fmt.Errorf("header/store: setting tail to %d: %w", actualTo, err),
@@ -474,7 +474,7 @@ func (s *Store[H]) DeleteRange(ctx context.Context, from, to uint64) error {
 		parallel := to-from >= deleteRangeParallelThreshold
 		if actualTo > from || (deleteErr != nil && parallel) {
 			newHeadHeight := from - 1
-			if err := s.setHead(ctx, s.ds, newHeadHeight); err != nil {
+			if err := s.movePointer(ctx, func() error { return s.setHead(ctx, s.ds, newHeadHeight) }); err != nil {
 				return errors.Join(
 					deleteErr,
 					fmt.Errorf("header/store: setting head to %d: %w", newHeadHeight, err),
@@ -494,6 +494,20 @@ func (s *Store[H]) DeleteRange(ctx context.Context, from, to uint64) error {
 	}
 
 	return nil
+}
+
+// movePointer runs the given head or tail update in step with the flush loop. A flush writes the
+// head and tail pointers as it finds them when it builds its batch; run concurrently, such a batch
+// may land after the update and put the old pointer - naming a header that is deleted by now -
+// back into the datastore.
+func (s *Store[H]) movePointer(ctx context.Context, update func() error) error {
+	// (the headers are deleted already: saving the progress is not given up for the caller's deadline)
+	ctx = context.WithoutCancel(ctx)
+	var uerr error
+	if err := s.syncThen(ctx, func() { uerr = update() }); err != nil {
+		return err
+	}
+	return uerr
 }
 
 // deleteRangeRaw deletes [from:to) header range without updating head or tail pointers.
